@@ -39,7 +39,10 @@ NAMES_OUT = ["ack", "nak", "stall", "txValid", "txFirst", "txLast", "txPayload",
              "stage", "hstate", "startPos", "txPid", "expectingAck",
              # the serializer MODEL (Model/Usb2/ControlCycSys.lean) driven by the model's wires; expected = the real
              # transmitter's outputs of the same cycle (which are also the inputs tValid … tPayload)
-             "ser.valid", "ser.first", "ser.last", "ser.payload"]
+             "ser.valid", "ser.first", "ser.last", "ser.payload",
+             # the block descriptor handler MODEL in the loop (cases with GetDescriptorHandlerBlock; the columns echo the
+             # inputs for the distributed handler); expected = the real handler's outputs of the same cycle
+             "blk.valid", "blk.first", "blk.last", "blk.payload", "blk.stall"]
 
 STAGES = ["SETUP", "DATA_IN", "DATA_OUT", "STATUS_IN", "STATUS_OUT"]
 HSTATES = ["IDLE", "GET_STATUS", "CLEAR_FEATURE", "SET_ADDRESS", "SET_CONFIGURATION", "GET_DESCRIPTOR",
@@ -519,7 +522,7 @@ def run_cyc(desc):
         inputs.append([d["endpoint"], d["new_token"], d["ready_for_response"], d["is_in"], d["is_out"], d["is_setup"],
                        d["is_ping"], d["rx_ready"], d["hs_ack"], d["active_config"], d["tx_ready"]] + list(si))
     # + what the serializer model must show: the real transmitter's stream outputs of the cycle
-    outputs = [list(o) + list(si[14:18]) for o, si in zip(rows_o, rows_i)]
+    outputs = [list(o) + list(si[14:18]) + list(si[9:14]) for o, si in zip(rows_o, rows_i)]
     # the simulator's FSM encodings -> the driver's fixed numbering
     smap = {b.stage_enc[n]: k for k, n in enumerate(STAGES)}
     hmap = {b.hstate_enc[n]: k for k, n in enumerate(HSTATES)}
@@ -544,7 +547,11 @@ def run_cyc(desc):
     tags.add("ep:%s" % ("0" if ep_num == 0 else "other"))
     d2 = dict(desc)
     d2["spec"] = spec
-    return {"cfg": [ep_num, mps], "inputs": inputs, "outputs": outputs, "failures": fails, "tags": sorted(tags), "desc": d2}
+    # the descriptor table for the block handler model in the loop (kind 0), in insertion order
+    cfg = [ep_num, mps, 1 if spec.get("avoid_blockram") else 0, len(spec["desc"])]
+    for t, i, bts in spec["desc"]:
+        cfg += [t, i, len(bts)] + list(bts)
+    return {"cfg": cfg, "inputs": inputs, "outputs": outputs, "failures": fails, "tags": sorted(tags), "desc": d2}
 
 
 def run_case(desc):
